@@ -18,6 +18,7 @@ MODULES = [
     "contracts.c_apply",
     "contracts.c_loops",
     "contracts.c_wrappers",
+    "contracts.c_stdlib",
 ]
 EXPECTED_MIN_OBLIGATIONS = {}
 PROPERTY_ASSUMPTIONS = {}
